@@ -271,7 +271,11 @@ func splitLines(content string) []string {
 	return lines
 }
 
-// applyChange applies an incremental change to the document
+// applyChange applies an incremental change to content. Positions follow the
+// LSP rules: Character counts UTF-16 code units, a character past the end of
+// its line means the line end, a line past the last line means the end of the
+// document. Negative numbers are treated as 0 and an end before the start as an
+// empty range at the start, so a malformed edit can never slice out of range.
 func applyChange(content string, lines []string, change TextDocumentContentChangeEvent) string {
 	if change.Range == nil {
 		return change.Text
@@ -279,33 +283,64 @@ func applyChange(content string, lines []string, change TextDocumentContentChang
 
 	startOffset := positionToOffset(lines, change.Range.Start)
 	endOffset := positionToOffset(lines, change.Range.End)
+	if startOffset > len(content) {
+		startOffset = len(content)
+	}
+	if endOffset > len(content) {
+		endOffset = len(content)
+	}
+	if endOffset < startOffset {
+		endOffset = startOffset
+	}
 
-	// Build new content
 	var result strings.Builder
 	result.WriteString(content[:startOffset])
 	result.WriteString(change.Text)
-	if endOffset < len(content) {
-		result.WriteString(content[endOffset:])
-	}
+	result.WriteString(content[endOffset:])
 
 	return result.String()
 }
 
-// positionToOffset converts a Position to a byte offset
+// positionToOffset converts an LSP position (zero-based line, UTF-16 code unit
+// offset within the line) to a byte offset into the document whose lines are
+// given, clamping both coordinates into the document.
 func positionToOffset(lines []string, pos Position) int {
-	offset := 0
-	for i := 0; i < pos.Line && i < len(lines); i++ {
-		offset += len(lines[i]) + 1 // +1 for newline
-	}
-	if pos.Line < len(lines) {
-		lineLen := len(lines[pos.Line])
-		if pos.Character < lineLen {
-			offset += pos.Character
-		} else {
-			offset += lineLen
+	total := 0
+	for i, l := range lines {
+		total += len(l)
+		if i < len(lines)-1 {
+			total++ // newline
 		}
 	}
-	return offset
+	if pos.Line < 0 {
+		return 0
+	}
+	if pos.Line >= len(lines) {
+		return total
+	}
+
+	offset := 0
+	for i := 0; i < pos.Line; i++ {
+		offset += len(lines[i]) + 1 // +1 for newline
+	}
+	if pos.Character <= 0 {
+		return offset
+	}
+
+	// walk the line counting UTF-16 code units
+	line := lines[pos.Line]
+	units := 0
+	for byteIdx, r := range line {
+		if units >= pos.Character {
+			return offset + byteIdx
+		}
+		if r >= 0x10000 {
+			units += 2
+		} else {
+			units++
+		}
+	}
+	return offset + len(line)
 }
 
 // GetWordAtPosition returns the word at the given position.
